@@ -22,16 +22,19 @@ def run(ctx):
         raise vlib.ToolError("generator produced no cases")
     cpath, opath = ctx.path("cases.ndjson"), ctx.path("replay_out.ndjson")
     vlib.write_ndjson(cpath, cases)
-    ctx.harness(binary, ["replay", cpath, opath])
-    out = vlib.read_ndjson(opath)
-    summ = [o for o in out if o["kind"] == "summary"][0]
-    for o in out:
-        if o["kind"] == "mismatch":
-            c = o["case"]
-            ctx.violation({"dir": "spec->impl", "op": c["ev"]["op"], "pre": c["pre"], "ev": c["ev"]},
-                          {"case": c, "got": o["got"]})
-    ctx.traces += summ["cases"] - summ["unbuildable"]
-    ctx.evaluations += summ["cases"]
+    # both arithmetic profiles: a panic that only an overflow-checked build shows is a violation too
+    for prof in ("release", "checked"):
+        pbin = ctx.build(prof, "mvh_text")
+        ctx.harness(pbin, ["replay", cpath, opath])
+        out = vlib.read_ndjson(opath)
+        summ = [o for o in out if o["kind"] == "summary"][0]
+        for o in out:
+            if o["kind"] == "mismatch":
+                c = o["case"]
+                ctx.violation({"dir": "spec->impl", "op": c["ev"]["op"], "pre": c["pre"], "ev": c["ev"], "profile": prof},
+                              {"case": c, "got": o["got"], "profile": prof})
+        ctx.traces += summ["cases"] - summ["unbuildable"]
+        ctx.evaluations += summ["cases"]
     ctx.nontrivial += sum(1 for c in cases if c["pre"]["entries"] or c["ev"]["op"] == "set")
     ctx.sample({"replayed_case": cases[len(cases) // 2]})
     # 3. impl -> spec
@@ -39,6 +42,10 @@ def run(ctx):
     tpath = ctx.path("trace.ndjson")
     ctx.harness(binary, ["record", tpath, str(runs), str(length)])
     events = vlib.read_ndjson(tpath)
+    cpath2 = ctx.path("trace_checked.ndjson")
+    ctx.harness(ctx.build("checked", "mvh_text"), ["record", cpath2, str(max(4, runs // 4)), str(length)], env={"VERIF_SEED": str(ctx.seed + 1)})
+    events += vlib.read_ndjson(cpath2)
+    vlib.write_ndjson(tpath, events)
     t = ctx.tlc("Trace_TextArchive", env={"TRACE": tpath}, workers=1, count=False, deque=True)
     rep = t.tagged("R")
     if len(rep) != 1 or rep[0]["n"] != len(events):
